@@ -63,9 +63,8 @@ theorem C14_not_to_others (env : Env) (ops : List Op) (r : Req) (o : Out) (c : C
 
 /-- **No send to closed / closing children.** Every connection a frame is written to is a live registered
 distributed connection (`distributed_peers`), and once the `CLOSED` event of connection `c` has been handled
-nothing is written to `c` any more, whatever happens afterwards to the carrier. (The window between the
-remote close and the `CLOSED` event is covered in the code by `send_message` refusing to write on a closing
-connection, connection.py:480-486 — not modelled, and not observable from the remote end.) -/
+nothing is written to `c` any more, whatever happens afterwards to the carrier. (The window between the `CLOSING`
+and the `CLOSED` notification of a connection is `C14_closing_window` below.) -/
 theorem C14_no_send_to_closing (env : Env) (ops : List Op) (r : Req) (o : Out) (c : ConnId) :
     (o ∈ handle env (run ops) r → o.toConn c = true → c ∈ (run ops).liveConns) ∧
     (o ∈ handle env (run (ops ++ [.closed c])) r → o.toConn c = false) := by
@@ -248,6 +247,92 @@ theorem C14_fanout_exact_suspended (env : Env) (h : List SOp) (e : Req × List O
   · refine ⟨h', hp, by simpa using heq, fun hown hs => forward_foreign _ _ hown hs,
       fun c hc => (runS_addingOK env h' c hc).2⟩
 
+/-- **Carriers handled while a connection is between its CLOSING and its CLOSED notification.** In any small-step
+history — tree operations, carriers, adds in progress, and `closeBegin c` (connection `c` is reported CLOSING: EOF, a
+failed write, a time-out; `disconnect` is suspended until the transport is gone, up to DISCONNECT_TIMEOUT) in any order
+and number, several connections closing at once included — for every carrier `e.1` there is the prefix `h'` handled
+before it such that what was WRITTEN for it is what `handle` queued in the tree state of `h'` minus the frames for the
+connections closing at that point, and:
+* every closing connection is still registered (it leaves `children` / `distributed_peers` only with `CLOSED`);
+* if the carrier is a foreign search: every connection receives it exactly once if it is a current child that is not
+  closing and not at all otherwise — a closing child costs none of its siblings their copy, wherever it stands in the list;
+* the reply is unaffected, and nothing is written that `handle` did not queue. -/
+theorem C14_closing_window (env : Env) (h : List SOp) (e : Req × List Out) (he : e ∈ (runS env h).sent) :
+    ∃ h', h' <+: h ∧
+      e.2 = written (runS env h').closing (handle env (runS env h').d e.1) ∧
+      (∀ c, c ∈ (runS env h').closing → c ∈ (runS env h').d.live) ∧
+      ((runS env h').d.session ≠ some e.1.user → e.1.IsSearch → ∀ c,
+        e.2.countP (Out.toConn c) =
+          if c ∈ (runS env h').d.children ∧ c ∉ (runS env h').closing then 1 else 0) ∧
+      (∀ o, o ∈ reply env (runS env h').d e.1 → o ∈ e.2) ∧
+      (∀ o, o ∈ e.2 → o ∈ handle env (runS env h').d e.1) := by
+  rcases sent_aux env h [] e he with h1 | ⟨h', hp, heq⟩
+  · simp [runS, SState.init] at h1
+  · rw [List.nil_append] at heq
+    refine ⟨h', hp, heq, (runS_closingOK env h').1, fun hown hs c => ?_, fun o ho => ?_, fun o ho => ?_⟩
+    · rw [heq, countP_written]
+      rw [runS_state] at hown ⊢
+      rw [C14_exactly_once env (treeOps h') e.1 hown hs c]
+      by_cases hcl : c ∈ (runS env h').closing
+      · simp [hcl]
+      · by_cases hch : c ∈ (run (treeOps h')).children <;> simp [hcl, hch]
+    · rw [heq]; exact reply_sub_written env _ e.1 _ o ho
+    · rw [heq] at ho; exact written_sub _ _ o ho
+
+/-- **A closing connection keeps its place until CLOSED.** Reporting connection `c` CLOSING changes nothing in the tree
+(`children`, `parent`, `distributed_peers`, the adds in progress): the library acts on `CLOSED` only. And the `CLOSED`
+notification ends the window: `c` is not closing afterwards (and, `C14_no_send_to_closing`, not a child either). -/
+theorem C14_closing_keeps_place (env : Env) (h : List SOp) (c : ConnId) :
+    (runS env (h ++ [.closeBegin c])).d = (runS env h).d ∧
+    (runS env (h ++ [.closeBegin c])).adding = (runS env h).adding ∧
+    c ∉ (runS env (h ++ [.tree (.closed c)])).closing := by
+  refine ⟨?_, ?_, closed_not_closing env h c⟩
+  · rw [runS_append, stepS_closeBegin_d]
+  · rw [runS_append, stepS_closeBegin_adding]
+
+/-- a small-step operation that reports a connection CLOSING -/
+def isCloseBegin : SOp → Bool
+  | .closeBegin _ => true
+  | _ => false
+
+/-- **Without closing windows everything queued is written**: in a history in which no connection is reported CLOSING
+ahead of its `CLOSED` notification (the atomic reading of the theorems above) the log of written frames is the log of
+queued frames. -/
+theorem C14_written_is_queued (env : Env) (h : List SOp) (hno : ∀ op, op ∈ h → isCloseBegin op = false) :
+    (runS env h).sent = (runS env h).log ∧ (runS env h).closing = [] := by
+  unfold runS
+  suffices ∀ (st : SState), st.sent = st.log → st.closing = [] →
+      (h.foldl (stepS env) st).sent = (h.foldl (stepS env) st).log ∧ (h.foldl (stepS env) st).closing = [] from
+    this SState.init rfl rfl
+  induction h with
+  | nil => intro st h1 h2; exact ⟨h1, h2⟩
+  | cons op h ih =>
+    intro st h1 h2
+    have hno' : ∀ op, op ∈ h → isCloseBegin op = false := fun o ho => hno o (List.mem_cons_of_mem _ ho)
+    have hop := hno op List.mem_cons_self
+    rw [List.foldl_cons]
+    cases op with
+    | tree op => exact ih hno' _ h1 (by simp [stepS, stillAdding, h2])
+    | search r => exact ih hno' _ (by simp [stepS, h1, h2, written_nil]) h2
+    | addBegin n => exact ih hno' _ h1 (by simp [stepS, stillAdding, h2])
+    | addEnd c => exact ih hno' _ h1 h2
+    | closeBegin c => simp [isCloseBegin] at hop
+
+/-- **What a protocol-following peer can read.** Every frame queued for a carrier is written in the form the protocol
+prescribes for its connection, whichever port the connection came through: a forwarded request travels on a distributed
+connection and is written IN THE CLEAR — also to a child that connected to the obfuscated listening port (only its
+PeerInit was obfuscated) —, a reply travels on a peer connection and is obfuscated exactly when that connection goes
+through an obfuscated port. (`wireObf` is the table `obfAfterInit`, read off `Network._finalize_peer_connection` /
+`PeerConnection.set_connection_state` at every run; finite, hence `decide`.) -/
+theorem C14_wire_form (env : Env) (s : DState) (r : Req) (o : Out) (_ho : o ∈ handle env s r) (viaObf : Bool) :
+    (∀ c unk u t q, o = Out.fwd c unk u t q → wireObf o.connType viaObf = false) ∧
+    (∀ to t me v l, o = Out.reply to t me v l → wireObf o.connType viaObf = viaObf) := by
+  have table : ∀ (t : ConnType) (via : Bool), wireObf t via = (decide (t = ConnType.peer) && via) := by
+    intro t via; cases t <;> cases via <;> decide
+  refine ⟨fun c unk u t q ho => ?_, fun to t me v l ho => ?_⟩
+  · subst ho; rw [table]; rfl
+  · subst ho; rw [table]; cases viaObf <;> rfl
+
 /-! Non-vacuity. A reachable state with a session (user 0), a parent (connection 2, user 3), two children
 (connections 0 and 1, users 1 and 2) and a candidate (connection 3, user 4: proposed after the parent was
 chosen, has not announced anything). A foreign search from user 5 with matches is forwarded to exactly the two
@@ -285,5 +370,22 @@ example : (runS demoEnv demoS).log =
     [(⟨.server 3 49, 5, 77, "rock"⟩, [.fwd 0 49 5 77 "rock", .fwd 1 49 5 77 "rock", .reply 5 77 0 ["a"] ["b"]]),
      (⟨.server 3 49, 5, 78, "rock"⟩, [.fwd 0 49 5 78 "rock", .reply 5 78 0 ["a"] ["b"]])] ∧
     (runS demoEnv demoS).adding = [] := by decide
+
+/-! A closing window: session, children 0, 1, 2; child 0 (first of the list) is reported CLOSING; the search handled
+meanwhile is queued for all three and written to 1 and 2; a second child (1) starts closing too: the next search reaches 2
+only; after both CLOSED notifications the list is `[2]`. -/
+def demoC : List SOp :=
+  [.tree (.sessionInit 0), .tree (.initialized 1 false), .tree (.initialized 2 false), .tree (.initialized 3 false),
+   .closeBegin 0, .search ⟨.server 3 49, 5, 77, "rock"⟩, .closeBegin 1, .search ⟨.server 3 49, 5, 78, "rock"⟩,
+   .tree (.closed 0), .tree (.closed 1), .search ⟨.server 3 49, 5, 79, "rock"⟩]
+
+example : (runS demoEnv (demoC.take 5)).closing = [0] ∧ (runS demoEnv (demoC.take 5)).d.children = [0, 1, 2] := by decide
+example : (runS demoEnv demoC).sent =
+    [(⟨.server 3 49, 5, 77, "rock"⟩, [.fwd 1 49 5 77 "rock", .fwd 2 49 5 77 "rock", .reply 5 77 0 ["a"] ["b"]]),
+     (⟨.server 3 49, 5, 78, "rock"⟩, [.fwd 2 49 5 78 "rock", .reply 5 78 0 ["a"] ["b"]]),
+     (⟨.server 3 49, 5, 79, "rock"⟩, [.fwd 2 49 5 79 "rock", .reply 5 79 0 ["a"] ["b"]])] ∧
+    (runS demoEnv demoC).closing = [] ∧ (runS demoEnv demoC).d.children = [2] := by decide
+example : ((runS demoEnv demoC).log.map (fun e => e.2.length)) = [4, 4, 2] := by decide
+example : wireObf .distributed true = false ∧ wireObf .peer true = true ∧ wireObf .peer false = false := by decide
 
 end AioslskVerif.C14
